@@ -401,6 +401,26 @@ def conforms (h : Hist) : Bool :=
   && (!(decide (0 < h.stops + h.appended + h.kills)) || h.done)
   && (!h.done || decide (0 < h.stops + h.lenTagged + h.lenCancel) || (h.isolated && h.parentDone))
 
+def isCanceled (e : Nat) : Bool := e == canceled
+
+/-- The history of context `x` in state `s` as the harness would have recorded it, read off the ghost fields:
+tagged errors are the non-`Canceled` ones handed in, `kills` the `Canceled` ones not accounted for by the
+propagation goroutine; the parent's flags are those of the parent context in `s` (the harness reads them
+after the child's — they only ever turn from false to true, and `conforms` is monotone in them). -/
+def histOf (s : State) (x : Ctx) : Hist :=
+  let par : Option Ctx := match x.kind with | .isolated p => s.ctxs[p]? | .plain => none
+  { isolated := match x.kind with | .isolated _ => true | .plain => false,
+    appended := x.requested.countP (fun e => !isCanceled e),
+    kills := x.requested.countP isCanceled - x.propKills,
+    stops := x.stopCalls,
+    parentDone := match par with | some px => px.done | none => false,
+    parentErr := match par with | some px => !px.errors.isEmpty | none => false,
+    lenTagged := x.errors.countP (fun e => !isCanceled e),
+    lenCancel := x.errors.countP isCanceled,
+    errNonNil := !x.errors.isEmpty,
+    done := x.done,
+    panics := 0 }
+
 def conformsWhy (h : Hist) : String :=
   if h.panics != 0 then "panic"
   else if h.lenTagged != h.appended then "lost-or-extra-error"
